@@ -167,16 +167,39 @@ ARGFIELDS = {"plain1": (0,), "typed1": (0,), "second1": (1,), "plain2": (0, 1), 
 
 
 # --------------------------------------------------------------------------- helpers
+HANGS = [0]
+CAP = 200           # no compute()/run() in these scopes yields more than a handful of values
+
+
+class TooManyHangs(BaseException):
+    pass
+
+
 def guarded(fn, *args):
     """run the real code under a watchdog; a first timeout may be a stall of a busy machine (the timer is wall
-    clock), so the deterministic call is repeated once with a long limit — only a second timeout is a hang"""
+    clock), so the deterministic call is repeated once with a longer limit — only a second timeout is a hang.
+    After two confirmed hangs there is no second chance any more, after twelve the run is aborted."""
+    if HANGS[0] >= 12:
+        raise TooManyHangs()
+    limit = 2
+    if HANGS[0] < 2:
+        try:
+            with watchdog(2):
+                return fn(*args)
+        except Timeout:
+            pass
+        limit = 8
     try:
-        with watchdog(3):
+        with watchdog(limit):
             return fn(*args)
     except Timeout:
-        pass
-    with watchdog(30):
-        return fn(*args)
+        HANGS[0] += 1
+        raise
+
+
+def take(gen):
+    """materialise at most CAP values (an endless generator shows up as a wrong number of results, not as a hang)"""
+    return list(itertools.islice(gen, CAP))
 
 
 def mkvalue(item):
@@ -287,7 +310,7 @@ def run_real(edges, flowj, aname, vname, ncompute=1, poke=True):
             pass
     for item in flowj:
         sib.fill(mkvalue(item))
-    res = [list(sib.compute()) for _ in range(ncompute)]
+    res = [take(sib.compute()) for _ in range(ncompute)]
     return sib, res, var_context, given
 
 
@@ -466,7 +489,7 @@ def _history(edges, blocks, aname, vname):
             except Exception as e:
                 ref_exc.add(type(e).__name__)
         try:
-            r = list(sib.compute())
+            r = take(sib.compute())
         except Timeout:
             raise
         except Exception as e:
@@ -523,7 +546,7 @@ def check_iterate(hist, hctx, select_all):
     octx = copy.deepcopy(hctx)
     el = IterateBins(select_bins=(lambda _: True)) if select_all else IterateBins()
     try:
-        out = guarded(lambda: list(el.run(iter([(copy.deepcopy(hist), copy.deepcopy(hctx))]))))
+        out = guarded(lambda: take(el.run(iter([(copy.deepcopy(hist), copy.deepcopy(hctx))]))))
     except Timeout:
         return [("IterateBins/non-termination", "run did not return")]
     except Exception as e:
@@ -680,7 +703,7 @@ def check_map(hist, hctx, sname, drop):
         ref[idx] = list(s.run(iter([copy.deepcopy(cell_at(orig.bins, idx))])))
     nexp = min(len(v) for v in ref.values())
     try:
-        out = guarded(lambda: list(MapBins(MAPSEQS[sname](), drop_bins_context=drop).run(
+        out = guarded(lambda: take(MapBins(MAPSEQS[sname](), drop_bins_context=drop).run(
             iter([(copy.deepcopy(orig), copy.deepcopy(hctx)), (copy.deepcopy(orig), copy.deepcopy(hctx))]))))
     except Timeout:
         return [("MapBins/non-termination", "run did not return")]
@@ -776,7 +799,7 @@ def check_mdseqmap(shape, lens):
     for k in range(min(lens)):
         exp.append(ref_map(lambda cell: cell[k], arr))
     try:
-        got = guarded(lambda: list(_MdSeqMap(lambda cell: iter(cell), arr)))
+        got = guarded(lambda: take(_MdSeqMap(lambda cell: iter(cell), arr)))
     except Timeout:
         return [("_MdSeqMap/non-termination", "iteration over shape %r lens %r did not stop" % (shape, lens))]
     except Exception as e:
@@ -837,6 +860,13 @@ def random_ctx(rng, tag):
 
 
 def body(R):
+    try:
+        _body(R)
+    except TooManyHangs:
+        R.error = "aborted after %d calls of the real code that did not return (see the non-termination failures)" % HANGS[0]
+
+
+def _body(R):
     rng = R.rng
     T = R.thorough
 
